@@ -218,6 +218,48 @@ def closure_oracle(prefix, ctx, out):
     return None
 
 
+# signatures for the prologue check: (signature text, [(param, default or None)]); ('const', x) / ('name', n)
+PROLOGUE_SIGS = [
+    ('a, b="DB", c="DC"', [('a', None), ('b', ('const', 'DB')), ('c', ('const', 'DC'))]),
+    ('a="DA", b="DB"', [('a', ('const', 'DA')), ('b', ('const', 'DB'))]),
+    ('a, b="DB"', [('a', None), ('b', ('const', 'DB'))]),
+    ('a="DA", b="DB", c="DC"', [('a', ('const', 'DA')), ('b', ('const', 'DB')), ('c', ('const', 'DC'))]),
+    ('a, b=v, c=w', [('a', None), ('b', ('name', 'v')), ('c', ('name', 'w'))]),
+    ('a, b, c="DC"', [('a', None), ('b', None), ('c', ('const', 'DC'))]),
+    ('a, b=1, c=2, d=3', [('a', None), ('b', ('const', 1)), ('c', ('const', 2)), ('d', ('const', 3))]),
+]
+
+
+def prologue_family():
+    out = []
+    for sig, spec in PROLOGUE_SIGS:
+        body = ''.join('[%s={{ %s }}]' % (p, p) for p, _ in spec)
+        n = len(spec)
+        calls = ''.join('{{ m(%s) }}' % ', '.join('"A%d"' % (i + 1) for i in range(j)) for j in range(n + 1))
+        kw = '{{ m(%s="K") }}' % spec[-1][0]
+        out.append(dict(kind='macro', sig=sig, spec=spec, src='{%% macro m(%s) %%}%s{%% endmacro %%}%s%s|END' % (sig, body, calls, kw)))
+        out.append(dict(kind='callblock', sig=sig, spec=spec,
+                        src='{%% macro m() %%}%s{%% endmacro %%}{%% call(%s) m() %%}%s{%% endcall %%}|END' % (
+                            ''.join('<{{ caller(%s) }}>' % ', '.join('"A%d"' % (i + 1) for i in range(j)) for j in range(n + 1)), sig, body)))
+    return out
+
+
+def prologue_expected(spec, ctx):
+    """Expected native output of the body for the calls with the first j arguments provided."""
+    def val(i, j, kwlast=False):
+        p, d = spec[i]
+        if i < j:
+            return 'A%d' % (i + 1)
+        if d is None:
+            return ''
+        return str(d[1]) if d[0] == 'const' else str(ctx.get(d[1], ''))
+    n = len(spec)
+    outs = []
+    for j in range(n + 1):
+        outs.append(''.join('[%s=%s]' % (spec[i][0], val(i, j)) for i in range(n)))
+    return outs
+
+
 def macro_contexts():
     out = []
     for p1 in (0, 1, [], [0], [1], [0, 1]):
